@@ -12,7 +12,8 @@ set_option linter.unusedVariables false
 set_option linter.unnecessarySimpa false
 namespace Rpyc.Srv
 
-def Live (p : Phase) : Prop := p = .authing ∨ p = .idle ∨ p = .queued ∨ p = .blocked ∨ p = .done
+def Live (p : Phase) : Prop :=
+  p = .authing ∨ p = .idle ∨ p = .queued ∨ p = .blocked ∨ p = .done ∨ p = .closing
 
 /-- how the record of one client may change (`c` in state `s`, `d` in state `t`) -/
 structure CRel (s t : St) (c d : Cli) : Prop where
@@ -345,6 +346,7 @@ theorem answer_served (c : Cli) (seq : Nat) (r : ReqKind) (n : Nat) :
   | ping => exact ⟨rfl, rfl, Nat.le_refl _, fun o ho => Or.inl ho⟩
   | probe oid => exact ⟨rfl, rfl, Nat.le_refl _, fun o ho => Or.inl ho⟩
   | drop oid => exact ⟨rfl, rfl, Nat.le_refl _, fun o ho => Or.inl (List.mem_filter.mp ho).1⟩
+  | arm => exact ⟨rfl, rfl, Nat.le_refl _, fun o ho => Or.inl ho⟩
   | lend =>
     refine ⟨rfl, rfl, Nat.le_succ _, ?_⟩
     intro o ho
@@ -609,8 +611,11 @@ theorem poolPlace_eff (s : St) (k : Nat) (r : Cli × Nat) (h : Served1 (s.cli k)
     Eff s (poolPlace s k r) (· = k) := by
   unfold poolPlace
   split
-  · exact Eff.setServe s _ k { r.1 with inFd := false } r.2 h.cred (Or.inr h.live) h.inst h.le
-      h.table rfl rfl rfl rfl rfl rfl rfl rfl rfl rfl rfl
+  · split
+    · exact Eff.setServe s _ k { r.1 with phase := .closing } r.2 h.cred (Or.inr (by simp [Live])) h.inst h.le
+        h.table rfl rfl rfl rfl rfl rfl rfl rfl rfl rfl rfl
+    · exact Eff.setServe s _ k { r.1 with inFd := false } r.2 h.cred (Or.inr h.live) h.inst h.le
+        h.table rfl rfl rfl rfl rfl rfl rfl rfl rfl rfl rfl
   · exact Eff.setServe s _ k r.1 r.2 h.cred (Or.inr h.live) h.inst h.le h.table
       rfl rfl rfl rfl rfl rfl rfl rfl rfl rfl rfl
   · exact Eff.setServe s _ k { r.1 with polled := true } r.2 h.cred (Or.inr h.live) h.inst h.le
@@ -651,6 +656,9 @@ theorem poolWake_eff (s : St) (k : Nat) : Eff s (poolWake s k) (· = k) := by
 
 theorem poolUnblock_eff (s : St) (k : Nat) : Eff s (poolUnblock s k) (· = k) := by
   unfold poolUnblock
+  split
+  · exact Eff.set1 s _ k { endServe (s.cli k) with phase := .closing } (endServe_cred _) (Or.inr (by simp [Live]))
+      (endServe_inst _) (fun o h => endServe_table _ o h) rfl rfl rfl rfl rfl rfl rfl rfl rfl rfl rfl
   refine ((Eff.set1 s { (s.set k { endServe (s.cli k) with inFd := false }) with blocked := rm k s.blocked } k
     { endServe (s.cli k) with inFd := false } (endServe_cred _) (Or.inr (by simp [Live])) (endServe_inst _)
     (fun o h => endServe_table _ o h) rfl rfl rfl rfl rfl rfl rfl rfl rfl rfl rfl).trans (drain_eff _ _)).mono' ?_
@@ -883,6 +891,57 @@ theorem supply_eff (s : St) (k : Nat) (c : Cred) (h : (s.cli k).cred = .silent) 
           exact (Tk_or (s := s) rfl j hj).elim Or.inl (fun h => Or.inr (Or.inr h))
     · exact ec.mono (fun j hj => Or.inl hj)
 
+theorem dropVictim_cred (c : Cli) : (dropVictim c).cred = c.cred := by simp [dropVictim, endServe_cred]
+theorem dropVictim_inst (c : Cli) : (dropVictim c).inst = c.inst := by simp [dropVictim]
+theorem dropVictim_table (c : Cli) (o : Nat) (h : o ∈ (dropVictim c).table) : o ∈ c.table :=
+  endServe_table c o (by simpa [dropVictim] using h)
+
+/-- the worker leaves the blocking `on_disconnect` of `k` and drops "its" descriptor: with the repaired code only `k`'s own
+record changes; with the pinned code possibly the connection of whoever holds that number now -/
+theorem poolRelease_eff (s : St) (k : Nat) : Eff s (poolRelease s k) (fun i => i = k ∨ s.cfg.spare = false) := by
+  unfold poolRelease
+  have own : ∀ (u : St) (b : List Nat), u.cfg = s.cfg → Eff u
+      { (u.set k { u.cli k with phase := .done, inFd := false, slowHook := false }) with blocked := b } (· = k) :=
+    fun u b _ => Eff.set1 u _ k { u.cli k with phase := .done, inFd := false, slowHook := false } rfl
+      (Or.inr (by simp [Live])) rfl (fun _ h => h) rfl rfl rfl rfl rfl rfl rfl rfl rfl rfl rfl
+  split
+  · rename_i hsp
+    refine ((own s _ rfl).trans (drain_eff _ _)).mono' ?_
+    intro j hj; rcases hj with hj | hj
+    · exact Or.inl (Or.inl hj)
+    · exact Or.inr hj
+  · rename_i hsp
+    have hsp' : s.cfg.spare = false := by simpa using hsp
+    split
+    · rename_i v _
+      split
+      · refine ((own s _ rfl).trans (drain_eff _ _)).mono' ?_
+        intro j hj; rcases hj with hj | hj
+        · exact Or.inl (Or.inl hj)
+        · exact Or.inr hj
+      · have e1 : Eff s (s.set v (dropVictim (s.cli v))) (· = v) :=
+          Eff.set1 s _ v (dropVictim (s.cli v)) (dropVictim_cred _) (Or.inr (by simp [dropVictim, Live]))
+            (dropVictim_inst _) (fun o h => dropVictim_table _ o h) rfl rfl rfl rfl rfl rfl rfl rfl rfl rfl rfl
+        rename_i hvk
+        have hkv : k ≠ v := fun h => hvk h.symm
+        have hck : (s.set v (dropVictim (s.cli v))).cli k = s.cli k := set_cli_ne _ _ _ _ hkv
+        have e2 : Eff (s.set v (dropVictim (s.cli v)))
+            { ((s.set v (dropVictim (s.cli v))).set k { s.cli k with phase := .done, inFd := false, slowHook := false }) with
+              blocked := rm k s.blocked } (· = k) :=
+          Eff.set1 _ _ k { s.cli k with phase := .done, inFd := false, slowHook := false } (by rw [hck])
+            (Or.inr (by simp [Live])) (by rw [hck]) (fun o h => by rw [hck]; exact h)
+            rfl rfl rfl rfl rfl rfl rfl rfl rfl rfl rfl
+        refine ((e1.trans e2).trans (drain_eff _ _)).mono' ?_
+        intro j hj
+        rcases hj with (hj | hj) | hj
+        · exact Or.inl (Or.inr hsp')
+        · exact Or.inl (Or.inl hj)
+        · exact Or.inr hj
+    · refine ((own s _ rfl).trans (drain_eff _ _)).mono' ?_
+      intro j hj; rcases hj with hj | hj
+      · exact Or.inl (Or.inl hj)
+      · exact Or.inr hj
+
 /-- who an action is about -/
 def Op.client : Op → Option Nat
   | .connect k _ => some k
@@ -892,6 +951,8 @@ def Op.client : Op → Option Nat
   | .abruptClose k => some k
   | .serverClose => none
   | .creds k _ => some k
+  | .connectReuse k _ => some k
+  | .releaseHook k => some k
 
 /-- the state right after a new connection has joined the listen queue, before the accept loop looks -/
 def joined (s : St) (k : Nat) (cred : Cred) : St :=
@@ -920,12 +981,14 @@ theorem step_connect {s t : St} {o : Obs} {k : Nat} {cred : Cred} (h : step s (.
 
 /-- every action of a connected client: containment -/
 theorem step_eff {s t : St} {o : Obs} (op : Op) (hop : op ≠ .serverClose) (hcon : ∀ k c, op ≠ .connect k c)
-    (h : step s op = .ok (t, o)) :
-    Eff s t (fun j => some j = op.client ∨ (s.cli j).phase = .backlog ∨ s.cfg.kind = .oneshot) := by
+    (hcon2 : ∀ k j, op ≠ .connectReuse k j) (h : step s op = .ok (t, o)) :
+    Eff s t (fun j => some j = op.client ∨ (s.cli j).phase = .backlog ∨ s.cfg.kind = .oneshot ∨
+      ((∃ k, op = .releaseHook k) ∧ s.cfg.spare = false)) := by
   have key : ∀ (k : Nat) (c' : Cli) (l : List Item), c'.cred = (s.cli k).cred → c'.phase = (s.cli k).phase →
       c'.inst = (s.cli k).inst → c'.table = (s.cli k).table →
-      Eff s (send (s.set k c') k l) (fun j => some j = some k ∨ (s.cli j).phase = .backlog ∨ s.cfg.kind = .oneshot) := by
-    intro k c' l h1 h2 h3 h4
+      ∀ x : Prop, Eff s (send (s.set k c') k l)
+        (fun j => some j = some k ∨ (s.cli j).phase = .backlog ∨ s.cfg.kind = .oneshot ∨ x) := by
+    intro k c' l h1 h2 h3 h4 x
     have e1 := inbox_eff s k c' h1 h2 h3 h4
     refine (e1.trans (send_eff _ k l)).mono' ?_
     intro j hj
@@ -933,7 +996,7 @@ theorem step_eff {s t : St} {o : Obs} (op : Op) (hop : op ≠ .serverClose) (hco
     · rcases h with h | h | h
       · exact Or.inl (Or.inl (by rw [h]))
       · exact Or.inl (Or.inr (Or.inl h))
-      · exact Or.inl (Or.inr (Or.inr h))
+      · exact Or.inl (Or.inr (Or.inr (Or.inl h)))
     · exact Or.inr h
   cases op with
   | serverClose => exact absurd rfl hop
@@ -944,28 +1007,28 @@ theorem step_eff {s t : St} {o : Obs} (op : Op) (hop : op ≠ .serverClose) (hco
     · cases h
     · simp only [Except.ok.injEq, Prod.mk.injEq] at h
       obtain ⟨rfl, _⟩ := h
-      exact key k _ _ rfl rfl rfl rfl
+      refine key k _ _ ?_ ?_ ?_ ?_ _ <;> rfl
   | raw k items =>
     simp only [step] at h
     split at h
     · cases h
     · simp only [Except.ok.injEq, Prod.mk.injEq] at h
       obtain ⟨rfl, _⟩ := h
-      exact key k _ _ rfl rfl rfl rfl
+      refine key k _ _ ?_ ?_ ?_ ?_ _ <;> rfl
   | gracefulClose k =>
     simp only [step] at h
     split at h
     · cases h
     · simp only [Except.ok.injEq, Prod.mk.injEq] at h
       obtain ⟨rfl, _⟩ := h
-      exact key k _ _ rfl rfl rfl rfl
+      refine key k _ _ ?_ ?_ ?_ ?_ _ <;> rfl
   | abruptClose k =>
     simp only [step] at h
     split at h
     · cases h
     · simp only [Except.ok.injEq, Prod.mk.injEq] at h
       obtain ⟨rfl, _⟩ := h
-      exact key k _ _ rfl rfl rfl rfl
+      refine key k _ _ ?_ ?_ ?_ ?_ _ <;> rfl
   | creds k c =>
     simp only [step] at h
     split at h
@@ -980,6 +1043,38 @@ theorem step_eff {s t : St} {o : Obs} (op : Op) (hop : op ≠ .serverClose) (hco
       rcases hj with hj | hj | hj
       · exact Or.inl (by rw [hj]; rfl)
       · exact Or.inr (Or.inl hj)
-      · exact Or.inr (Or.inr hj)
+      · exact Or.inr (Or.inr (Or.inl hj))
+  | connectReuse k j => exact absurd rfl (hcon2 k j)
+  | releaseHook k =>
+    simp only [step] at h
+    split at h
+    · cases h
+    · simp only [Except.ok.injEq, Prod.mk.injEq] at h
+      obtain ⟨rfl, _⟩ := h
+      refine (poolRelease_eff s k).mono ?_
+      intro j hj
+      rcases hj with hj | hj
+      · exact Or.inl (by rw [hj]; rfl)
+      · exact Or.inr (Or.inr (Or.inr ⟨⟨k, rfl⟩, hj⟩))
+
+/-- the state in which a new connection that was given the descriptor number of `j`'s closed socket has joined the listen
+queue: whatever `fd_to_conn` held under that number is replaced by it -/
+def joinedReuse (s : St) (k j : Nat) : St :=
+  { ((s.set j { s.cli j with inFd := false, usurper := some k }).set k
+      { cred := .good, phase := .backlog, clientOpen := true }) with ids := s.ids ++ [k] }
+
+theorem step_connectReuse {s t : St} {o : Obs} {k j : Nat} (h : step s (.connectReuse k j) = .ok (t, o)) :
+    t = acceptAll (s.ids ++ [k]) (joinedReuse s k j) ∧ o = .ok ∧ (s.cli k).phase = .absent ∧ k ≠ j ∧
+      ((s.cli j).phase = .closing ∨ (s.cli j).phase = .done) ∧ canAccept s = true := by
+  simp only [step] at h
+  split at h
+  · cases h
+  · rename_i hg
+    simp only [Except.ok.injEq, Prod.mk.injEq] at h
+    refine ⟨h.1.symm, h.2.symm, ?_, ?_, ?_, ?_⟩
+    · cases hp : (s.cli k).phase <;> simp [hp] at hg ⊢
+    · intro hkj; subst hkj; simp at hg
+    · cases hp : (s.cli j).phase <;> simp [hp] at hg ⊢
+    · cases hc : canAccept s <;> simp [hc] at hg ⊢
 
 end Rpyc.Srv
